@@ -111,6 +111,14 @@ def ea_cases():
         for tl, t in targets:
             for sl, s in sources:
                 yield f'EA op={op!r} target={tl} source={sl}', B.ea(op, t, s)
+                if t is not ABSENT and s:
+                    # sibling order is not an input: the sources listed before the target, the roID last
+                    import copy
+                    doc = copy.deepcopy(B.ea(op, t, s))
+                    ea = TJ.find(doc, 'roElementAction')
+                    ea[4][:] = ([c for c in ea[4] if c[0] == 'element_source'] + [c for c in ea[4] if c[0] == 'element_target']
+                                + [c for c in ea[4] if c[0] not in ('element_source', 'element_target')])
+                    yield f'EA op={op!r} target={tl} source={sl} (source before target)', doc
 
 
 def documents(tier):
